@@ -355,13 +355,17 @@ func (by byKeyHash) Less(i, j int) bool {
 func (h *hintMgr) dump(chunkID, splitID int) (err error) {
 	ck := h.chunks[chunkID]
 	sp := ck.splits[splitID]
+	buf := sp.buf
 
+	// write the file without the chunk lock, but publish the result (file set,
+	// buffer gone) only under it: lookups read sp.buf / sp.file under the lock
 	ck.Unlock()
-	defer ck.Lock()
-
 	path := h.getPath(chunkID, splitID, false)
 	logger.Infof("dump %s", path)
-	sp.file, err = sp.buf.Dump(path)
+	file, err := buf.Dump(path)
+	ck.Lock()
+
+	sp.file = file
 	if err == nil {
 		h.maxDumpedHintID.setIfLarger(chunkID, splitID)
 	}
